@@ -128,6 +128,13 @@ def classify_shape(ln, out):
     ks.append("hmtx:" + ("no" if f["h"] == "-" else "yes"))
     ks.append("vmtx:" + ("no" if f["v"] == "-" else "yes"))
     ks.append("VORG:" + ("no" if f["o"] == "-" else "yes"))
+    ids = [] if f["c"] == "-" else [tuple(int(v) for v in x.split(",")[0].split(".")) for x in f["c"].split("/")]
+    chosen = next((pe for pe in P.PREF if pe in ids), None)
+    ks.append("cmap:" + ("none" if chosen is None else f"{chosen[0]}.{chosen[1]}-of-{len(ids)}"))
+    if chosen == (3, 0) and t[10] != "-":
+        low = [int(x.split(".")[0]) for x in t[10].split(",")]
+        if any(c <= 0xFF for c in low): ks.append("symbol:text-has-latin1")
+        if any(c in (0xFE, 0x100, 0xF0FF, 0xF100) for c in low): ks.append("symbol:text-at-alias-bound")
     if out.startswith("ok"):
         n_in = 0 if t[10] == "-" else len(t[10].split(","))
         n_out = int(out.split()[1])
@@ -287,14 +294,25 @@ def cmap_family_search(ctx, shim, chars, r, nfonts):
             if any((p_, e_) == pe for p_, e_, _, _ in rec["subs"]):
                 chosen = pe; break
         have = [c for c in dom if nominal(c) is not None and (chosen != (1, 0) or mac_encodable(c))]
-        if not have:
+        # characters WITHOUT a glyph per the rules are rendered as .notdef (glyph 0, its metrics).  Asked only where
+        # nothing else can step in: no space fallback; a canonical decomposition (the precomposed Latin letters) always
+        # ends in a combining mark, which no font of the family maps — except through a MacRoman subtable, where every
+        # unmappable character is looked up as byte 0: Macintosh fonts are left out of this part
+        missing = [c for c in dom if nominal(c) is None and chars.p[c]["sf"] == 0 and chosen != (1, 0)]
+        if not have and not missing:
             continue
         edges = [c for c in P.CMAP_EDGES if c in have]
+        medges = [c for c in P.CMAP_EDGES if c in missing]
         modes[mode] = modes.get(mode, 0) + 1
         lines, ms = [f"font S{f} {hexf}"], []
         for d in "lrtb":
             for _ in range(2):
-                text = [r.choice(edges) if edges and r.chance(1, 2) else r.choice(have) for _ in range(r.range(1, 8))]
+                text = []
+                for _ in range(r.range(1, 8)):
+                    if missing and (not have or r.chance(1, 4)):
+                        text.append(r.choice(medges) if medges and r.chance(1, 2) else r.choice(missing))
+                    else:
+                        text.append(r.choice(edges) if edges and r.chance(1, 2) else r.choice(have))
                 cl = [3 * i for i in range(len(text))]
                 t = ",".join(f"{c:x}:{k}" for c, k in zip(text, cl))
                 lines.append(f"shape S{f} {d} {r.choice(list(P.SCRIPTS))} - {r.choice([0, 1, 8])} {r.below(3)} - - - {t}")
@@ -307,7 +325,7 @@ def cmap_family_search(ctx, shim, chars, r, nfonts):
                     if d in "tb":
                         v = chars.p[cc]["vert"]
                         if v and nominal(v) is not None: cc = v
-                    g = nominal(cc)
+                    g = nominal(cc) or 0
                     shown.append(cc)
                     if d in "lr": want.append((g, k, hadv(g), 0, 0, 0))
                     else: want.append((g, k, 0, vadv(g), -(hadv(g) // 2), -vorg(g)))
@@ -352,8 +370,9 @@ def cmap_family_search(ctx, shim, chars, r, nfonts):
                          "alone / together with 3/1, 3/10, 0/x, 1/0 and unlisted subtables in every order / a MacRoman subtable / "
                          "neither; formats 4, 12 (0, 6 for MacRoman); each code point of U+0000..U+0101 mapped directly, only at "
                          "U+F000+c, at both (different glyphs) or nowhere; texts over the characters of U+0000..U+0101 and "
-                         "U+F000..U+F101 that have a glyph per the rules (non-marks, non-default-ignorables; precomposed letters "
-                         "included), every second one a boundary value of a constant of the lookup code; 4 directions; "
+                         "U+F000..U+F101 (non-marks, non-default-ignorables; precomposed letters included), three out of four with a glyph "
+                         "per the rules, one without (expected .notdef; not on MacRoman fonts, not for fallback spaces), every second "
+                         "one a boundary value of a constant of the lookup code; 4 directions; "
                          "expected = glyph of the preferred subtable (symbol alias for c <= U+00FF without direct mapping, "
                          "MacRoman byte via python's codec), input cluster, hmtx advance / -(vmtx or asc-desc), offsets "
                          "0 / (-hadv/2, -origin), reversed for RTL and BTT; non-trivial = a symbol font shaped a character "
